@@ -154,6 +154,38 @@ def check(ctx: Ctx) -> None:
     auto_memo_check(ctx, 'C17.e', [RES, PAR, SER])
     _check_json(ctx)
     _check_dispatch(ctx)
+    _check_filename_values(ctx)
+
+
+def _check_filename_values(ctx: Ctx) -> None:
+    """C17.f: scalar parameter values reach the file-name template unrounded."""
+    M = ctx.model
+    ctx.rule('C17.f', 'replace_dict_values (the file-name builder) hands every scalar value of the dictionary to the template as it is: no '
+                      'rounding / truncation / fixed-precision formatting of a value on its way into the name (distinct values must give '
+                      'distinct names)', floor=1)
+    fn = M.func('pyphysim/util/misc.py', 'replace_dict_values')
+    ctx.instance('C17.f', fn.qualname)
+    LOSSY = {'round', 'np.round', 'np.around', 'np.round_', 'np.floor', 'np.ceil', 'np.trunc', 'np.rint', 'int', 'math.floor', 'math.ceil',
+             'math.trunc', 'np.float32', 'np.float16', 'np.format_float_positional', 'np.format_float_scientific'}
+    hits = []
+    for n in walk_no_nested(fn.node):
+        if isinstance(n, ast.Call) and norm(n.func) in LOSSY:
+            hits.append((n, 'the value passes through `%s`' % norm(n)[:50]))
+        if isinstance(n, ast.Call) and norm(n.func) == 'format' and len(n.args) == 2 and isinstance(n.args[1], ast.Constant) \
+                and isinstance(n.args[1].value, str) and '.' in n.args[1].value:
+            hits.append((n, 'the value is formatted with the fixed precision %r' % n.args[1].value))
+        if isinstance(n, ast.BinOp) and isinstance(n.op, ast.Mod) and isinstance(n.left, ast.Constant) and isinstance(n.left.value, str) \
+                and __import__('re').search(r'%\.?\d*[efg]', n.left.value):
+            hits.append((n, 'the value is formatted with `%s`' % n.left.value))
+        if isinstance(n, ast.FormattedValue) and n.format_spec is not None and '.' in norm(n.format_spec):
+            hits.append((n, 'the value is formatted with a fixed precision f-string spec'))
+        if isinstance(n, ast.Call) and isinstance(n.func, ast.Attribute) and n.func.attr == 'format' and isinstance(n.func.value, ast.Constant) \
+                and isinstance(n.func.value.value, str) and __import__('re').search(r'\{[^}]*:[^}]*\.\d', n.func.value.value):
+            hits.append((n, 'the value is formatted with the fixed precision template %r' % n.func.value.value))
+    ctx.obligation('C17.f', fn.qualname, not hits, {'lossy_steps': [h[1] for h in hits]} if hits else None, nontrivial=True)
+    for node, why in hits[:1]:
+        ctx.violation('C17.f', fn.qualname, '%s: two parameter values that differ below that precision (e.g. noise powers 3.98e-14 and 7.94e-14 W) get '
+                      'the same file name, and the second save overwrites the first' % why, fn.path, node.lineno, operand='lossy-name')
 
 
 # ----------------------------------------------------------------------------------------------
